@@ -50,7 +50,7 @@ class World:
     def run_script(self, script, chooser, start=None, on_step=None):
         """Run ``script`` on a fresh chromosome (or a clone of ``start``) under the chooser."""
         chrom = self.chromosome(start.clone() if start is not None else None)
-        r = rng.ChoiceRNG(chooser, self.thresholds)
+        r = rng.ChoiceRNG(chooser, self.thresholds, index_full_upto=getattr(self, "index_full_upto", 6))
         with rng.installed(r):
             for i, op in enumerate(script):
                 apply_op(self, chrom, op)
